@@ -541,6 +541,8 @@ func init() {
 		"nondetStringN":    primNondetStringN,
 		"nondetByteString": primNondetByteString,
 		"nondetRange":      primNondetRange,
+		"nondetInt32In":    func(m *M, fn *ssa.Function, a []Value) Value { return m.nondetIntIn(a, 32) },
+		"nondetInt64In":    func(m *M, fn *ssa.Function, a []Value) Value { return m.nondetIntIn(a, 64) },
 		"vassume":          primAssume,
 		"vassert":          primAssert,
 		"vreach":           primReach,
@@ -602,6 +604,28 @@ func (m *M) nondetScalar(a []Value, s smt.Sort, kind string) Value {
 	}
 	v, _ := m.newNondet(m.keyOf(a[0], idx), kind, s)
 	return v
+}
+
+// nondetIntIn(key, lo, hi): an integer input in [lo,hi] (|lo|,|hi| < 2^40) represented in the solver as a
+// mathematical Int (int2bv of it is the Go value): keeps arithmetic-heavy queries in LIA/LRA.
+func (m *M) nondetIntIn(a []Value, w int) Value {
+	var idx Value
+	if len(a) > 3 {
+		idx = a[3]
+	}
+	lo, hi := int64(constInt(a[1])), int64(constInt(a[2]))
+	if lo < -(1<<40) || hi > 1<<40 || lo > hi {
+		abortf("nondetIntIn: bad range")
+	}
+	v, _ := m.newNondet(m.keyOf(a[0], idx), "intin", smt.Int)
+	m.st.PC = append(m.st.PC, smt.IntLe(smt.IntC(lo), v), smt.IntLe(v, smt.IntC(hi)))
+	t := smt.Int2BV(w, v)
+	if lo >= 0 {
+		t.Hint = "nn"
+	} else {
+		t.Hint = "ss"
+	}
+	return t
 }
 
 func primNondetString(m *M, fn *ssa.Function, a []Value) Value {
